@@ -133,6 +133,10 @@ def make_int_unops():
               ref=lambda k: _pydivmod(k.v("x"), 3),
               dom=lambda k: nonneg_bits(k.v("x"), k.n - 1) if k.n > 2 else None,
               tags={"int", "binop", "divmod", "sc"}),
+        Entry("int_divmod_cs3", lambda k: divmod(3, k.S("x")), ("x",),
+              ref=lambda k: _pydivmod(3, k.v("x")),
+              dom=lambda k: (k.v("x") > 0) & (k.v("x") < (1 << (k.n - 1))) if k.n > 2 else None,
+              tags={"int", "binop", "divmod", "cs", "c=3"}),
         Entry("int_val", lambda k: _val(k), ("x",), ref=None, tags={"int", "val"}),
     ]
     return ents
